@@ -3,10 +3,12 @@ package main
 // Op / result lines for the Lean model of Program.GC and of the wire
 // allocator (Model/Gc.lean).
 //
-//	op:     c05 gc <inputs> <consts> <steps>      (gco: step list only)
-//	        inputs  key.bits,key.bits
-//	        consts  key.bitstring(LSB first),...            ("-" none)
-//	        steps   op:out:in|in;...   arg = c|v . id . key . bits . s|u . cint
+//	op:     c05 gc <inputs> <zo> <consts> <steps>      (gco: step list only)
+//	        inputs  key.bits.bucket,key.bits.bucket
+//	        zo      key.bucket,key.bucket of the {zero} / {one} values
+//	        consts  key.bitstring(LSB first).bucket,...            ("-" none)
+//	        steps   op:out:in|in;...   arg = c|v . id . key . bits . s|u . cint . bucket
+//	                bucket = Value.HashCode() % 10240 (the allocator's hash table)
 //	                = prog.Steps with the gc instructions removed
 //	result: steps=<the real prog.Steps after Program.GC>;ret=<return wire ids
 //	        from the wire>;circ=<step:maxid+1 of every garbled circuit>
@@ -43,7 +45,7 @@ func (si *ssaInfo) argStr(v *ssa.Value) string {
 			ci = int(n)
 		}
 	}
-	return fmt.Sprintf("%s.%d.%d.%d.%s.%d", c, v.ID, si.key(v), v.Type.Bits, sg, ci)
+	return fmt.Sprintf("%s.%d.%d.%d.%s.%d.%d", c, v.ID, si.key(v), v.Type.Bits, sg, ci, bucketOf(v))
 }
 
 func canonArg(v *ssa.Value) string {
@@ -74,7 +76,7 @@ func constBits(v *ssa.Value) (s string, ok bool) {
 }
 
 func emitGcOp(o *hxlib.Out, sp *ssa.Program, si *ssaInfo, tr *hxlib.StreamTranscript, sessionOK bool) {
-	if si.HasCirc || len(sp.Inputs) != 2 {
+	if si.HasCirc || len(sp.Inputs) != 2 || len(sp.Steps) > 4000 {
 		o.Op("c05 skip", "unsupported")
 		o.Count("gcop_skipped")
 		return
@@ -86,7 +88,7 @@ func emitGcOp(o *hxlib.Out, sp *ssa.Program, si *ssaInfo, tr *hxlib.StreamTransc
 			name = fmt.Sprintf("arg{%d}", idx)
 		}
 		v := ssa.Value{Name: name, Scope: 1, Type: arg.Type}
-		ins = append(ins, fmt.Sprintf("%d.%d", si.key(&v), arg.Type.Bits))
+		ins = append(ins, fmt.Sprintf("%d.%d.%d", si.key(&v), arg.Type.Bits, bucketOf(&v)))
 	}
 	var names []string
 	for n := range sp.Constants {
@@ -108,7 +110,7 @@ func emitGcOp(o *hxlib.Out, sp *ssa.Program, si *ssaInfo, tr *hxlib.StreamTransc
 			o.Count("gcop_skipped")
 			return
 		}
-		consts = append(consts, fmt.Sprintf("%d.%s", k, bits))
+		consts = append(consts, fmt.Sprintf("%d.%s.%d", k, bits, bucketOf(&c)))
 	}
 	cs := "-"
 	if len(consts) > 0 {
@@ -151,5 +153,7 @@ func emitGcOp(o *hxlib.Out, sp *ssa.Program, si *ssaInfo, tr *hxlib.StreamTransc
 		res += ";ret=" + r + ";circ=" + strings.Join(circ, ",")
 	}
 	o.Count("gcop_" + cmd)
-	o.Op(fmt.Sprintf("c05 %s %s %s %s", cmd, strings.Join(ins, ","), cs, strings.Join(pre, ";")), res)
+	zv, ov := zeroValue(), oneValue()
+	zo := fmt.Sprintf("%d.%d,%d.%d", si.key(&zv), bucketOf(&zv), si.key(&ov), bucketOf(&ov))
+	o.Op(fmt.Sprintf("c05 %s %s %s %s %s", cmd, strings.Join(ins, ","), zo, cs, strings.Join(pre, ";")), res)
 }
